@@ -243,20 +243,20 @@ func (r *Report) Flush() {
 		vs = append(vs, r.violations[k])
 	}
 	out := map[string]any{
-		"property":    r.Property,
-		"part":        r.Part,
-		"shard":       Shard(),
-		"evaluations": r.evals,
-		"nontrivial":  r.nontrivial,
-		"hashes":      hs,
-		"classes":     r.classes,
-		"samples":     r.samples,
-		"violations":  vs,
-		"exhaustive":  r.Exhaustive,
-		"requested":   r.Requested,
-		"notes":       r.notes,
-		"excluded":    r.excluded,
-		"extra":       r.extra,
+		"property":                 r.Property,
+		"part":                     r.Part,
+		"shard":                    Shard(),
+		"evaluations":              r.evals,
+		"nontrivial":               r.nontrivial,
+		"hashes":                   hs,
+		"classes":                  r.classes,
+		"samples":                  r.samples,
+		"violations":               vs,
+		"exhaustive":               r.Exhaustive,
+		"requested":                r.Requested,
+		"notes":                    r.notes,
+		"excluded":                 r.excluded,
+		"extra":                    r.extra,
 		"distinct_by_construction": r.distinctCtr,
 	}
 	b, err := json.Marshal(out)
